@@ -70,7 +70,11 @@ def build_and_validate_headers(headers: Iterable[Tuple[bytes, bytes]]) -> List[T
     for name, value in headers:
         if name[0] == b":"[0]:
             raise ValueError("Pseudo headers are not valid")
-        validated_headers.append((bytes(name).strip(), bytes(value).strip()))
+        header = (bytes(name).strip(), bytes(value).strip())
+        for part in header:
+            if b"\r" in part or b"\n" in part or b"\0" in part:
+                raise ValueError("Header names and values must not contain CR, LF or NUL")
+        validated_headers.append(header)
     return validated_headers
 
 
